@@ -339,6 +339,9 @@ def expand_extract(ex, canary=False):
     text, n = rules.r7_loop_value(text)
     if n:
         fired.append('R7b loop-value x%d' % n)
+    text, n = rules.r7_while_block_cond(text)
+    if n:
+        fired.append('R7f while-with-block-condition -> loop x%d' % n)
     text, n = rules.r7_let_else_continue(text)
     if n:
         fired.append('R7e let-else-continue -> if-let x%d' % n)
